@@ -470,6 +470,11 @@ def check_c17(exe, tier, seed, verdict):
     np_ += nmp
     files = gen_random_files(seed + 17, 300 if tier == "quick" else 5000, 14 if tier == "quick" else 40)
     acc = validate_prefix_traces(exe, files, verdict, "C17")
+    # the extended getter inside mixed API histories (random files read singly and in layers, keys set afterwards): predicted by
+    # the root specification (Econf!ExtOf) for every entry that stems from a parsed file
+    from . import p_econf
+    nmix = 150 if tier == "quick" else 3000
+    acc += p_econf.run_mixed(exe, random.Random(seed + 71), nmix, verdict, "C17")
     cov = {"states": r.distinct, "transitions": r.generated, "traces_validated_against_impl": n + acc,
            "evaluations": n + np_ + sum(len(f["lines"]) for f in files), "distinct_nontrivial": nn,
            "rule": "same bounded universe as C02 (%d files, every %d-th replayed) with the comparison extended to line number, comment block directly preceding the entry, trailing comments (non-empty items), value lines and reported file path; path scenarios (absolute, relative, merged, layered with 1 / >= 2 files; TLC-exported 3- and 2-layer trees read through econf_readConfig / econf_readDirs: a result merged from >= 2 consulted files has the empty path, also when the drop-ins hold only comments): %d; random prefix traces: %d files. non-trivial = an entry with a comment block, a trailing comment or >= 2 value lines." % (total, sample, np_, len(files)),
